@@ -450,7 +450,7 @@ def cases(ctx):
     reps = 3 if quick else 8
     i = 0
     if ctx.mine(7):
-        yield "volthreads", {"total": 144000 if quick else 300000}
+        yield "volthreads", {"total": 240000 if quick else 400000}
     for rep in range(reps * 2):
         if ctx.mine(i):
             yield "tc28", {"reps": 6}
